@@ -72,10 +72,13 @@ impl Prop for C01 {
                 ("fresh", (i % 2 == 0).to_string()), ("ident", (if i % 3 == 2 { "self-eph" } else { "self" }).into()), ("seed", rng.next().to_string())]));
         }
         v.extend(crate::props::clirt::cli_rt_cases("key", tier, seed));
+        // "however the plaintext source splits the data": the tool reading its input from a named pipe (no length to ask for, written once)
+        v.extend(crate::props::c12::C12.cases(tier, seed ^ 0x01).into_iter().filter(|c| get(c, "op") == "fifo-input" && !get(c, "cmd").starts_with("pass")));
         v
     }
     fn run(&self, c: &Case, m: &mut Model) -> Outcome {
         if get(c, "kind") == "cli-rt" { return crate::props::clirt::run_cli_rt(c, m); }
+        if get(c, "op") == "fifo-input" { return crate::props::c12::C12.run(c, m); }
         let mut o = Outcome::default();
         let seed: u64 = get(c, "seed").parse().unwrap_or(0);
         let mut rng = Rng::new(seed);
